@@ -915,12 +915,25 @@ class StateSpace(NonlinearIOSystem, LTI):
 
                     # Evaluating at a pole.  Return value depends if there
                     # is a zero at the same point or not.
-                    if x_idx in self.zeros():
+                    if self._has_zero_at(x_idx):
                         out[:, :, idx] = complex(np.nan, np.nan)
                     else:
                         out[:, :, idx] = complex(np.inf, np.nan)
 
         return out
+
+    def _has_zero_at(self, x):
+        """Check whether the system has an (invariant) zero at `x`.
+
+        The system matrix ``[[A - x I, B], [C, D]]`` loses rank exactly at
+        the zeros of the system.  This does not depend on the accuracy of
+        the computed zeros (or on Slycot for non-square systems).
+
+        """
+        sysmat = np.block([[self.A - x * eye(self.nstates), self.B],
+                           [self.C, self.D]])
+        return matrix_rank(sysmat) < \
+            self.nstates + min(self.ninputs, self.noutputs)
 
     def freqresp(self, omega):
         """(deprecated) Evaluate transfer function at complex frequencies.
